@@ -55,6 +55,13 @@ fn mutate_leaf(rng: &mut Rng, leaf: &Value, siblings: &[Value]) -> Vec<(&'static
                 if let Some(i) = n.as_i64() {
                     out.push(("number-plus-one", json!(i.wrapping_add(1))));
                     out.push(("number-minus-one", json!(i.wrapping_sub(1))));
+                    // width probes: equal to the original after truncation to 8 / 16 / 32 bits
+                    if i >= 0 {
+                        out.push(("number-plus-2^8", json!(i as u64 + (1 << 8))));
+                        out.push(("number-plus-2^16", json!(i as u64 + (1 << 16))));
+                        out.push(("number-plus-2^32", json!(i as u64 + (1u64 << 32))));
+                        out.push(("number-plus-2^63", json!((i as u64).wrapping_add(1u64 << 63))));
+                    }
                 } else if let Some(u) = n.as_u64() {
                     out.push(("number-minus-one", json!(u - 1)));
                 }
@@ -181,7 +188,10 @@ fn c11_suite<S: ShortGroupSignatureScheme>(em: &mut Emitter, base: &mut Rng, sui
                     }
                     let leafname = path.iter().filter(|s| s.parse::<usize>().is_err()).cloned().collect::<Vec<_>>().join(".");
                     let short = leafname.rsplit('.').next().unwrap_or("").to_string();
-                    if property_leaf(path, kind) {
+                    if short == "total_values" && (how == "number-plus-2^16" || how == "number-plus-2^32" || how == "number-plus-2^63") {
+                        // the recorded finding: total_values enters the hashed bytes truncated to 16 bits
+                        em.violation("c11:enum-total-truncated-u16", format!("{}: presentation still accepted after {} of leaf {}", suite, how, path.join("/")), scn.replay(json!({"suite": suite, "path": path, "how": how})));
+                    } else if property_leaf(path, kind) {
                         em.violation(&format!("c11:accepted-after-mutation:{}", short), format!("{}: presentation still accepted after {} of leaf {}", suite, how, path.join("/")), scn.replay(json!({"suite": suite, "path": path, "how": how, "presentation": v2})));
                     } else {
                         em.count(&format!("accepted-nonproperty-leaf:{}", short));
